@@ -145,6 +145,7 @@ class Ctx:
         self.nondet = []  # nondeterminism events of the current path
         self.seed = int(os.environ.get("VERIF_SEED", "0") or 0)
         self.on_shared_access = None  # C14 scheduler hook
+        self.undo = None  # C15 undo log
         self.deadline = 0
 
     # ---- lifecycle
